@@ -159,12 +159,31 @@ theorem C17_unit_rule (env : Env) (n n' src : Node) (r : Str)
   refine ⟨fun u hu => by simp [hu, pickUnit], fun hn => by simp [hn, pickUnit], rfl, rfl, rfl, rfl, rfl⟩
 
 /-- … after which the usual conversion into the target's definition unit applies
-    (`modify_value`): same unit → unchanged, another unit of the table → scaled by the ratio of
-    magnitudes, unit missing on either side → unchanged. -/
+    (`modify_value`): same unit → unchanged, unit missing on either side → unchanged, another
+    unit of the same dimension → the affine map `x ↦ (a_f·x + b_f − b_t)/a_t` applied to every
+    element (temperatures have an offset), another dimension or unknown unit → refused. -/
 theorem C17_unit_conversion (tbl : UnitTable) (v : Val) (u w : Str) :
     convertVal tbl v (some u) (some u) = some v ∧
-    convertVal tbl v none (some w) = some v ∧ convertVal tbl v (some u) none = some v := by
-  simp [convertVal]
+    convertVal tbl v none (some w) = some v ∧ convertVal tbl v (some u) none = some v ∧
+    (∀ d af bf at' bt, u ≠ w → lookupUnit tbl u = some (d, af, bf) → lookupUnit tbl w = some (d, at', bt) →
+      convertVal tbl v (some u) (some w) = some (affVal (af / at') ((bf - bt) / at') v)) ∧
+    (∀ d d' af bf at' bt, u ≠ w → d ≠ d' → lookupUnit tbl u = some (d, af, bf) →
+      lookupUnit tbl w = some (d', at', bt) → convertVal tbl v (some u) (some w) = none) := by
+  refine ⟨by simp [convertVal], by simp [convertVal], by simp [convertVal], ?_, ?_⟩
+  · intro d af bf at' bt hne h1 h2
+    simp [convertVal, hne, h1, h2]
+  · intro d d' af bf at' bt hne hd h1 h2
+    simp [convertVal, hne, h1, h2, hd]
+
+/-- the conversion acts on every element of an array (and on nothing but numbers) -/
+theorem C17_convert_elementwise (a b : Rat) (l : List Val) (q : Rat) :
+    affVal a b (.arr l) = .arr (l.map (affVal a b)) ∧ affVal a b (.num q) = .num (q * a + b) := by
+  refine ⟨?_, rfl⟩
+  simp only [affVal]
+  congr 1
+  induction l with
+  | nil => rfl
+  | cons x t ih => simp [affList, ih]
 
 /-- The injected value is the referenced node's *current* value (not the raw text of its first
     definition), cut by the host's slice: after injection and `set_value`, the host holds
@@ -319,14 +338,18 @@ def C17_refinement_statement : Prop :=
 
 /-- Proved part: for every program (any length) of definitions and modifications with literal
     or injected values (`{?p}`, `{source?p}`, any slice on definitions) and of imports (`{?*}`,
-    `{?p.*}`, `{?p}`, bare or prefixed, local or from a remote source), from every environment
+    `{?p.*}`, `{?p}`, bare or prefixed, local or from a remote source, onto fresh paths or onto
+    nodes that exist already), from every environment
     that satisfies the invariant: whenever the specification accepts the program, the model's
     main loop accepts its lines, ends in an environment whose abstraction IS the specification's
     result (names, types, dimensions, units, values, constraints of all nodes; remote sources
     untouched), and the invariant holds again.  Side conditions (`FragRun`, checked along the
     specification's run): well-formed path / request texts, an injected definition takes a node
     of its own type, integer nodes stay dimensionless, modifications carry no slice, an import
-    selects at least one node and its destination paths are pairwise different. -/
+    selects at least one node.  An imported node whose destination path already exists is
+    assigned to that node like a modification (same type required, current value converted from
+    the imported node's unit into the existing node's definition unit, the existing node keeps
+    its constraints) — on both sides, in the order of selection. -/
 theorem C17_refinement_partial (tbl : UnitTable) (stmts : List SStmt) (items : List Item) (env : Env)
     (s' : SEnv) (hinv : Inv tbl env) (hfrag : FragRun tbl (absEnv env) stmts)
     (hc : stmts.mapM conc = some items) (h : sRun tbl (absEnv env) stmts = .ok s') :
@@ -349,7 +372,7 @@ example : Inv unitTable Env.empty ∧
   · refine ⟨⟨by simp, by simp⟩, rfl, ?_, trivial⟩
     intro v u _ hk
     cases hk
-  · refine ⟨⟨[⟨[['a']], .float, [], some ['m'], .num 3, false, none, none, [], [], none⟩], [], false⟩, ?_⟩
+  · refine ⟨⟨[⟨[['a']], .float, [], some ['m'], some (.num 3), false, none, none, [], [], none⟩], [], false⟩, ?_⟩
     simp [sStep, absEnv, Env.empty, sEval, pickUnit, unitOk, isNumKw, lookupUnit, unitTable, conforms, castScalar]
 
 end SciVerif.C17
